@@ -20,8 +20,16 @@ import (
 const typeRefFrag = `fragment R on __Type { kind name ofType { kind name ofType { kind name ofType { kind name ofType { kind name } } } } }`
 
 func typeProbe(name string) string {
-	return fmt.Sprintf(`{ __type(name: %q) { kind name fields(includeDeprecated: true) { name type { ...R } args { name type { ...R } } } interfaces { name } possibleTypes { name } inputFields { name type { ...R } } enumValues(includeDeprecated: true) { name } } } %s`, name, typeRefFrag)
+	return fmt.Sprintf(`{ __type(name: %q) { kind name fields(includeDeprecated: true) { name isDeprecated type { ...R } args { name type { ...R } } } interfaces { name } possibleTypes { name } inputFields { name type { ...R } } enumValues(includeDeprecated: true) { name isDeprecated } } } %s`, name, typeRefFrag)
 }
+
+// typeProbeND: the same listings without includeDeprecated (default false).
+func typeProbeND(name string) string {
+	return fmt.Sprintf(`{ __type(name: %q) { name fields { name isDeprecated type { ...R } } enumValues { name } } } %s`, name, typeRefFrag)
+}
+
+// typeProbeVar passes includeDeprecated through a variable.
+const typeProbeVarText = `query Q($n: String!, $d: Boolean) { __type(name: $n) { name fields(includeDeprecated: $d) { name isDeprecated type { ...R } } enumValues(includeDeprecated: $d) { name isDeprecated } } } ` + typeRefFrag
 
 var introspectionQueryText = introspection.Query
 
@@ -62,6 +70,18 @@ func introspectionProbes(orig *Spec) []query {
 	}
 	for _, n := range universe(orig) {
 		qs = append(qs, query{Kind: "probe", Label: "type:" + n, Text: typeProbe(n)})
+	}
+	for _, t := range orig.Types {
+		// deprecation only matters where something is deprecated
+		hasDep := len(t.DepValues) > 0
+		for _, f := range t.Fields {
+			hasDep = hasDep || f.Deprecated
+		}
+		if hasDep {
+			qs = append(qs, query{Kind: "probe", Label: "type-nd:" + t.Name, Text: typeProbeND(t.Name)},
+				query{Kind: "probe", Label: "type-var:" + t.Name, Text: typeProbeVarText, Vars: map[string]interface{}{"n": t.Name, "d": true}},
+				query{Kind: "probe", Label: "type-var:" + t.Name, Text: typeProbeVarText, Vars: map[string]interface{}{"n": t.Name, "d": false}})
+		}
 	}
 	for _, t := range orig.Types {
 		if t.Kind == "interface" || t.Kind == "union" || t.Kind == "object" && len(t.Ifaces) > 0 {
@@ -198,7 +218,14 @@ func fieldsOf(v interface{}) string {
 	for _, e := range l {
 		if m, ok := e.(map[string]interface{}); ok {
 			s, _ := m["name"].(string)
-			out = append(out, s+inputsOf(m["args"])+":"+refString(m["type"]))
+			if d, _ := m["isDeprecated"].(bool); d {
+				s += "~"
+			}
+			args := ""
+			if _, ok := m["args"]; ok {
+				args = inputsOf(m["args"])
+			}
+			out = append(out, s+args+":"+refString(m["type"]))
 		}
 	}
 	sort.Strings(out)
@@ -264,6 +291,14 @@ func realView(b *built, w *world, features []string, orig *Spec) ([]string, erro
 		} else {
 			lines = append(lines, fmt.Sprintf("type %s: %v fields=%s interfaces=%s possible=%s inputs=%s values=%s", n, t["kind"],
 				fieldsOf(t["fields"]), namesOf(t["interfaces"]), namesOf(t["possibleTypes"]), inputsOf(t["inputFields"]), namesOf(t["enumValues"])))
+			// the listings without includeDeprecated
+			d2, raw2, err := run(typeProbeND(n))
+			if err != nil || d2 == nil {
+				return nil, fmt.Errorf("type probe (no deprecated) %s failed: %v %s", n, err, raw2)
+			}
+			if t2, ok := d2["__type"].(map[string]interface{}); ok {
+				lines = append(lines, fmt.Sprintf("typend %s: fields=%s values=%s", n, fieldsOf(t2["fields"]), namesOf(t2["enumValues"])))
+			}
 		}
 		// feature-aware type lookup of the validator, observed through a fragment definition
 		o := runQuery(b, w, features, &query{Kind: "probe", Text: fmt.Sprintf("{ __typename ...X } fragment X on %s { __typename }", n)})
@@ -359,14 +394,18 @@ func sexpInputs(x hx.Sexp) string {
 	return "[" + strings.Join(out, ",") + "]"
 }
 
-func sexpFields(x hx.Sexp) string {
+func sexpFields(x hx.Sexp, withArgs bool) string {
 	if !x.IsList {
 		return "none"
 	}
 	var out []string
 	for _, e := range x.List {
 		if e.IsList && len(e.List) == 3 {
-			out = append(out, e.List[0].Atom+sexpInputs(e.List[2])+":"+e.List[1].Atom)
+			args := ""
+			if withArgs {
+				args = sexpInputs(e.List[2])
+			}
+			out = append(out, e.List[0].Atom+args+":"+e.List[1].Atom)
 		}
 	}
 	sort.Strings(out)
@@ -397,9 +436,10 @@ func modelViewLines(reply string) ([]string, error) {
 		case "type":
 			if len(a) == 3 {
 				lines = append(lines, fmt.Sprintf("type %s: none", a[1].Atom))
-			} else if len(a) == 8 {
+			} else if len(a) == 10 {
 				lines = append(lines, fmt.Sprintf("type %s: %s fields=%s interfaces=%s possible=%s inputs=%s values=%s", a[1].Atom, a[2].Atom,
-					sexpFields(a[3]), sexpNames(a[4]), sexpNames(a[5]), sexpInputs(a[6]), sexpNames(a[7])))
+					sexpFields(a[3], true), sexpNames(a[4]), sexpNames(a[5]), sexpInputs(a[6]), sexpNames(a[7])))
+				lines = append(lines, fmt.Sprintf("typend %s: fields=%s values=%s", a[1].Atom, sexpFields(a[8], false), sexpNames(a[9])))
 			} else {
 				return nil, fmt.Errorf("bad type entry %s", e.String())
 			}
